@@ -133,7 +133,7 @@ M = [
      "        # do not modify the array returned by the user's callback\n        orig_cons = np.copy(orig_cons)\n",
      ""),
     ("C11", "scaled_jac_inplace", "pygradflow/scale.py",
-     "        jac = jac_orig.tocoo(copy=True)",
+     "        jac = jac_orig.tocoo().astype(np.float64, copy=True)",
      "        jac = jac_orig.tocoo()"),
     ("C11", "cons_bounds_scaled_inplace", "pygradflow/scale.py",
      "        cons_lb = np.ldexp(problem.cons_lb, scaling.cons_weights)",
